@@ -4,6 +4,7 @@ import (
 	"fmt"
 	"sort"
 	"strings"
+	"sync"
 
 	"github.com/gardenbed/emerge/internal/ebnf/parser/spec"
 	"github.com/gardenbed/emerge/internal/regex/parser/ast"
@@ -11,7 +12,7 @@ import (
 )
 
 const (
-	specOne   = "grammar one ;\nID = $ID ;\nstart = [ \"a\" \"b\" ] \"x\" [ \"a\" \"b\" ] { \"c\" \"d\" } \"y\" { \"c\" \"d\" } ID ;\n"
+	specOne   = "grammar one ;\n@none \"x\" \"y\" ;\nID = $ID ;\nstart = [ \"a\" \"b\" ] \"x\" [ \"a\" \"b\" ] { \"c\" \"d\" } \"y\" { \"c\" \"d\" } ID ;\n"
 	specTwo   = "grammar two ;\nNUM = /[0-9]+/ ;\nstart = {{ \"p\" \"q\" }} \"z\" {{ \"p\" \"q\" }} ( \"r\" \"s\" ) [ \"r\" \"s\" ] ( \"r\" \"s\" ) NUM ;\n"
 	specBad   = "grammar bad ;\nAA = \"x\" ;\nAA = \"z\" ;\nstart = AA UU [ \"a\" \"b\" ] [ \"a\" \"b\" ] ;\n"
 	specThree = "grammar three ;\n@left \"+\" ;\nstart = e ;\ne = e \"+\" e | [ \"-\" \"-\" ] \"i\" [ \"-\" \"-\" ] ;\n"
@@ -50,8 +51,8 @@ var Ops = []struct {
 }
 
 const (
-	specFive = "grammar same ;\nstart = \"a|b\" \".\" \"x?\" \"[ab]\" item ;\nitem = \"i\" ;\n"
-	specSix  = "grammar same ;\nAB = /a|b/ ;\nANY = /./ ;\nOPT = /x?y/ ;\nITEM = /[ab]/ ;\nstart = AB \"i\" OPT ITEM item ;\nitem = ANY ;\n"
+	specFive = "grammar same ;\n@right \"i\" \".\" ;\n@none \"x?\" ;\nstart = \"a|b\" \".\" \"x?\" \"[ab]\" item ;\nitem = \"i\" ;\n"
+	specSix  = "grammar same ;\n@left \"i\" ;\nAB = /a|b/ ;\nANY = /./ ;\nOPT = /x?y/ ;\nITEM = /[ab]/ ;\nstart = AB \"i\" OPT ITEM item ;\nitem = ANY ;\n"
 )
 
 const specFour = "grammar four ;\nNEG = /\\P{Lu}+x/ ;\nANY = /a.c/ ;\nNOND = /\\D\\d/ ;\nWS = $WS ;\nstart = NEG ANY NOND WS ;\n"
@@ -74,11 +75,54 @@ func patternDigest(p string) string {
 	return n.ToDFA().Minimize().EliminateDeadStates().String()
 }
 
+// A result must stay what it was: the values an operation returned are rendered again after later (or concurrent)
+// operations have finished and compared with the first rendering.
+var (
+	againMu sync.Mutex
+	again   []func() string
+)
+
+func remember(first string, render func() string) {
+	againMu.Lock()
+	defer againMu.Unlock()
+	again = append(again, func() string {
+		if now := render(); now != first {
+			return fmt.Sprintf("--- when it was returned ---\n%s\n--- now ---\n%s", first, now)
+		}
+		return ""
+	})
+}
+
+// Recheck renders every remembered result again and returns the first difference ("" if none); it forgets them all.
+func Recheck() (diff string) {
+	againMu.Lock()
+	fs := again
+	again = nil
+	againMu.Unlock()
+	defer func() {
+		if p := recover(); p != nil {
+			diff = fmt.Sprintf("rendering an earlier result again panics: %v", p)
+		}
+	}()
+	for _, f := range fs {
+		if d := f(); d != "" {
+			return d
+		}
+	}
+	return ""
+}
+
 func parseDigest(text string, dfa, lalr bool) string {
 	s, err := spec.Parse("f.g", strings.NewReader(text))
 	if err != nil {
 		return "ERROR " + err.Error()
 	}
+	first := renderSpec(s, dfa, lalr)
+	remember(first, func() string { return renderSpec(s, dfa, lalr) })
+	return first
+}
+
+func renderSpec(s *spec.Spec, dfa, lalr bool) string {
 	var b strings.Builder
 	fmt.Fprintf(&b, "name=%s\n", s.Name)
 	var prods []string
